@@ -102,7 +102,7 @@ func (e *explorer[T, A]) checkStateOnce(chain []Op) {
 			return
 		}
 	}
-	if e.opt.Writes {
+	if e.opt.Writes && (e.opt.WriteDepth == 0 || len(chain) < e.opt.WriteDepth) {
 		if !e.checkWrites(chain, m) {
 			return
 		}
